@@ -113,14 +113,14 @@ def text(h, hid=0):
 
 
 def file_text(cfg, hs, note=""):
-    head = "#cfg threads=%d sched=%s tq=%d\n" % (cfg["threads"], cfg["sched"], cfg.get("tq", 5))
+    head = "#cfg threads=%d sched=%s tq=%d warmup=%d\n" % (cfg["threads"], cfg["sched"], cfg.get("tq", 5), cfg.get("warmup", 1))
     if note:
         head += "".join("# %s\n" % l for l in note.splitlines())
     return head + "".join(text(h, i) for i, h in enumerate(hs))
 
 
 def parse_file(txt):
-    cfg = dict(threads=2, sched="lfq", tq=5)
+    cfg = dict(threads=2, sched="lfq", tq=5, warmup=1)
     m = re.search(r"^#cfg (.*)$", txt, re.M)
     if m:
         for kv in m.group(1).split():
@@ -313,7 +313,7 @@ def run_batch(drv, cfg, hs, workdir, tag, tq=None):
         env["PARSEC_MCA_mca_sched"] = cfg["sched"]
         with open(logp + ".err", "w") as ef:
             try:
-                p = subprocess.run([drv, path, logp, str(cfg["threads"]), str(tqv)], env=env, stdout=ef, stderr=subprocess.STDOUT,
+                p = subprocess.run([drv, path, logp, str(cfg["threads"]), str(tqv), str(cfg.get("warmup", 1))], env=env, stdout=ef, stderr=subprocess.STDOUT,
                                    timeout=60 + 8 * tqv + 2 * len(todo), cwd=workdir)
                 rc = p.returncode
             except subprocess.TimeoutExpired:
@@ -391,6 +391,8 @@ def run(tier, seed, res):
                        "DTD pools are added after context_start and freed after the epoch's context_wait; PTG pools may be added before the start",
                        "DTD pools have no completion-callback children (their callback legitimately runs once per wait cycle)",
                        "taskpool_test / context_test are used as perturbation only (their return values are not part of the statement)",
+                       "every process first runs one empty epoch (context_start + context_wait): taskpool_wait/_test before the first "
+                       "context_wait of a process crash (known finding, corpus/C06/regress/wait_before_first_context_wait.txt)",
                        "schedulers %s excluded (known finding, see C03) unless VF_DTD_SCHED_ALL=1" % ",".join(g.LIVELOCK_SCHEDS)]
     n = 300 if quick else 8000
     per = 15 if quick else 40
@@ -437,17 +439,25 @@ def run(tier, seed, res):
             res.violations.append(core.Violation(msg, replay_text=txt))
         else:
             lab("unconfirmed_" + o.status)
+    import glob
+    st_ = {}
+    for pth in sorted(glob.glob(os.path.join(core.VERIF, "corpus", PROP, "regress", "*.txt"))):
+        ok, msg = replay(pth, tries=1)
+        st_[os.path.basename(pth)] = "passes now" if ok else "still fails"
+        if not ok:
+            res.known.append("%s still reproduces (excluded from generation): %s" % (os.path.basename(pth), msg.splitlines()[0][:160]))
+    res.coverage["regress"] = st_
     if quick and res.distinct_nontrivial < FLOOR_QUICK and not res.violations:
         res.inconclusive = "only %d non-trivial histories (floor %d)" % (res.distinct_nontrivial, FLOOR_QUICK)
 
 
-def replay(path):
+def replay(path, tries=3):
     drv = _build()
     cfg, hs = parse_file(open(path).read())
     wd = os.path.join(core.run_dir("C06replay"), hashlib.sha1(path.encode()).hexdigest()[:8])
     bad = []
-    for n in range(3):
+    for n in range(tries):
         for i, o in enumerate(run_batch(drv, cfg, hs, wd, "rp%d" % n)):
             if o.status in ("violation", "crash", "hang"):
                 bad.append("run %d history %d: %s: %s" % (n, i, o.status, "; ".join(o.msgs)[:500]))
-    return (not bad), ("\n".join(bad[:4]) if bad else "all 3 runs passed")
+    return (not bad), ("\n".join(bad[:4]) if bad else "all runs passed")
